@@ -168,6 +168,8 @@ func replayClientService(t []vStep, variant int) (*seqFail, int) {
 	for i, s := range t {
 		o := s.Op
 		var opErr error
+		// a local operation that never returns (a lock taken twice) must be a verdict, not a hanging child
+		watchdog := time.AfterFunc(2*tBoundC, func() { panic("c16cseq: operation never returns: " + o.String()) })
 		switch o.Op {
 		case "add", "addfail":
 			impl := &c16Impl{inst: o.Inst, fail: o.Op == "addfail"}
@@ -176,6 +178,7 @@ func replayClientService(t []vStep, variant int) (*seqFail, int) {
 			opErr = err
 			if err == nil {
 				if want := c16cReal(s.Obs.IDOf[o.Inst-1]); id != want {
+					watchdog.Stop()
 					return &seqFail{"client/seq/add-identifier", fmt.Sprintf("Add number %d returned identifier %#x, the specification %#x (2^31 + counter, never reused)", o.Inst, id, want)}, i
 				}
 			}
@@ -188,6 +191,7 @@ func replayClientService(t []vStep, variant int) (*seqFail, int) {
 			r, err := w.hello(c16cReal(o.ID), tag)
 			opErr = err
 			if err == nil && r != "re:"+tag {
+				watchdog.Stop()
 				return &seqFail{"client/seq/call-wrong-reply", fmt.Sprintf("%s returned %q", o, r)}, i
 			}
 		case "svcterminate":
@@ -217,6 +221,7 @@ func replayClientService(t []vStep, variant int) (*seqFail, int) {
 		default:
 			hlib.Fatal("unknown op %q for the client-side service", o.Op)
 		}
+		watchdog.Stop()
 		if opErr == errNoAnswerC {
 			cl := "client/seq/" + o.Op + "-never-answered"
 			if o.Inst > 0 && s.Obs.St[o.Inst-1] == "removed" {
